@@ -15,7 +15,7 @@ HOSTILE_SRC = re.compile(r'byteorder::ReadBytesExt::read_|^model::data::Message:
                          r'^std::io::Read::read|^model::link::Link::<S>::read$|^model::link::Stream::<S>::read|Cursor::<T>::position$|'
                          r'^yasna::|BERReader|^x509_parser::|native_tls::Certificate::to_der|^nla::ntlm::get_payload_field$|^nla::ntlm::read_target_info$|'
                          r'^core::per::read_|^nla::cssp::read_ts_|^model::data::Array::<T>::inner$')
-CLIENT_SRC = re.compile(r'^model::rnd::random$|^nla::ntlm::(hmac_md5|md4|md5|unicode|z|rc4k|mic|sign_key|seal_key|compute_response_v2|kx_key_v2|ntowfv2.*|lmowfv2)$|'
+CLIENT_SRC = re.compile(r'^model::rnd::random$|^nla::ntlm::(hmac_md5|md4|md5|unicode|z|rc4k|mic|sign_key|seal_key|kx_key_v2|ntowfv2.*|lmowfv2)$|'
                         r'to_uppercase$|String::|^<.* as model::unicode::Unicode>::to_unicode$|^model::data::to_vec$|^nla::asn1::to_der$|'
                         r'^std::vec::Vec::<T>::new$|^nla::cssp::create_ts_|encode_utf16|^std::vec::from_elem$')
 # typestate fields: Option fields of client objects assigned only by client code (API misuse, not hostile input) - DESIGN.md 3.2
@@ -764,7 +764,7 @@ class Report:
 
     def op_hostile_why(self, body, op, depth):
         """None if the operand depends on client-side data only, else a short reason"""
-        if depth > 8:
+        if depth > 16:
             return None
         vis = set()
         os_ = origins(body, op, visited=vis)
